@@ -9,7 +9,7 @@ EXPLANATION = ("ESX part (map): the real aws_hash_table under harness-chosen has
                "every operation: count, find() of all 8 key pointers, slot array contents, structural invariants, per-operation "
                "destructor deltas; iteration with every deletion pattern by visit index.")
 HARNESSES = [
-    dict(name="map", src=["map.c"], variant="asan", deadline={"quick": 240, "thorough": 1500}),
+    dict(name="map", src=["map.c"], variant="asan", deadline={"quick": 240, "thorough": 1500}, fallback_cflags=["-DNO_WHITEBOX"]),
     dict(name="hasheq", src=["hasheq.c"], variant="asan", deadline={"quick": 120, "thorough": 300}),
 ]
 ASSUMPTIONS = [
